@@ -563,8 +563,18 @@ def syncGo (P : Params) : Nat → Proc → Except Err Proc
       | .error e => .error e
       | .ok s' => syncGo P fuel s'
 
-/-- `sqfs_block_processor_sync` -/
-def sync (P : Params) (s : Proc) : Except Err Proc := syncGo P (s.backlog + 1) s
+/-- the `for (;;)` loop of `sqfs_block_processor_sync` with its fuel: everything the main thread need not hold
+itself is dequeued.  (Before /repo 69db961 this was the whole of `sync`.) -/
+def syncDrain (P : Params) (s : Proc) : Except Err Proc := syncGo P (s.backlog + 1) s
+
+/-- `sqfs_block_processor_sync` (block_processor.c:205-234): the drain, then
+`return proc->pool->get_status(proc->pool);` — a worker failure nobody has looked at yet is reported here -/
+def sync (P : Params) (s : Proc) : Except Err Proc :=
+  match syncDrain P s with
+  | .error e => .error e
+  | .ok s1 =>
+    if (poolStatus P s1.pool).2 ≠ 0 then .error (.pool (poolStatus P s1.pool).2)
+    else .ok { s1 with pool := (poolStatus P s1.pool).1 }
 
 /-- `sqfs_block_processor_finish` -/
 def finish (P : Params) (s : Proc) : Except Err Proc :=
